@@ -1,19 +1,20 @@
 """The rig of C19 (decoding does not depend on what was decoded before).
 
-Three roles, one file:
+Two roles, one file:
 
-* library (imported by harness/props/C19.py): session shapes, message material, the pool of
-  worker processes, nothing that decodes;
-* `cacherig.py --worker`: a process that imports exabgp, sets what the application sets at start
-  (`Attribute.caching`), decodes NOTHING itself and, for every job read on stdin (one JSON line),
-  forks a child.  The child is in the state of a process that has just started; it builds the
-  sessions of the job from two real OPENs, decodes the job's messages in order through the real
-  entry points (`Message.unpack`, `UpdateCollection.unpack_message`), renders each one (content,
-  JSON and text API lines, re-packed attributes), finally renders every returned object again, and
-  writes one JSON line.  A job with one step is "this message decoded alone in a fresh process";
-  a job with many steps is "this sequence, in sequence, in a fresh process".
-* `cacherig.py --oneshot`: the same for one job in this very interpreter, no fork (used to check
-  that "forked from the pristine worker" and "fresh interpreter" are the same thing).
+* library (imported by harness/props/C19.py): session shapes, message material, the pool that
+  launches worker interpreters; nothing here decodes;
+* `cacherig.py --worker`: a brand-new interpreter (`python -S`) that reads ONE job (a JSON
+  document) on stdin, imports exabgp, sets what the application sets at start
+  (`Attribute.caching`), and runs the job: for each step, in order, it establishes the step's
+  session if it is not yet (our real OPEN and the mirrored peer's real OPEN through the wire),
+  decodes the message through the real entry point (`Message.unpack`, or
+  `UpdateCollection.unpack_message`), and renders it at once (content, JSON and text API lines,
+  re-packed attributes); at the end it renders every returned object again.  One JSON document
+  on stdout.  Step 0 of every job is therefore "this message decoded ALONE in a FRESH process";
+  the later steps are "in sequence".  (A worker that forks one child per job from a pristine
+  parent was measured first: on this VM a forked child runs ~100x slower than its parent
+  (copy-on-write faults), a new interpreter per job is cheaper and is the cleaner notion of fresh.)
 
 The real code is instrumented from outside only to *observe*: `AttributeCollection.unpack`,
 `Attribute.klass` and `Capability.klass` are wrapped by functions that call the original and
@@ -261,18 +262,23 @@ def run_job(job: dict) -> dict:
 
     rec = Recorder()
     specs = job['specs']
-    sess = [build_session(s) for s in specs]  # sessions are established before traffic flows
-    setup_klass = list(rec.klass)  # the OPENs of the session establishment went through Capability.klass
-    rec.calls.clear()
-    rec.klass.clear()
-    setup_klass_ids = rec.class_ids()
+
+    def attr_cache_entries() -> int:  # the per-attribute-id cache: prefilled (ORIGIN, ATOMIC_AGGREGATE), not used when decoding
+        return sum(len(c) for c in rec.A.cache.values())
+
+    before = attr_cache_entries()
+    sess: list = [None] * len(specs)
     objs: list = []
     steps_out: list[dict] = []
     for st in job['steps']:
-        n, neg = sess[st['s']]
-        body = bytes.fromhex(st['body'])
         rec.calls = []
         rec.klass = []
+        if sess[st['s']] is None:
+            # the session is established (two real OPENs) right before its first message:
+            # the dispatches this causes are part of the step's record
+            sess[st['s']] = build_session(specs[st['s']])
+        n, neg = sess[st['s']]
+        body = bytes.fromhex(st['body'])
         try:
             if st.get('entry', 'message') == 'collection':
                 obj = UpdateCollection.unpack_message(body, neg)
@@ -283,23 +289,14 @@ def run_job(job: dict) -> dict:
         except Exception as e:  # noqa: BLE001  (whatever escapes is the result, as an enum)
             r = {'class': 'error', 'error': error_enum(e)}
             objs.append(None)
-        steps_out.append({'render': r, 'calls': rec.calls, 'klass': rec.klass})
+        steps_out.append({'render': r, 'calls': rec.calls, 'klass': rec.klass, 'params': {'asn4': int(bool(neg.asn4)), 'aigp': int(bool(neg.aigp))}})
     rec.calls = []
     rec.klass = []
     again = []
     if job.get('rerender', True):
         for o in objs:
             again.append(None if o is None else render(*o))
-    return {
-        'id': job.get('id'),
-        'steps': steps_out,
-        'again': again,
-        'class_ids': rec.class_ids(),
-        'class_ids_after_setup': setup_klass_ids,
-        'setup_klass': setup_klass,
-        'params': [{'asn4': int(bool(neg.asn4)), 'aigp': int(bool(neg.aigp))} for _, neg in sess],
-        'pid': os.getpid(),
-    }
+    return {'id': job.get('id'), 'steps': steps_out, 'again': again, 'class_ids': rec.class_ids(), 'attr_cache': [before, attr_cache_entries()], 'pid': os.getpid()}
 
 
 def _prepare_worker() -> None:
@@ -317,55 +314,14 @@ def _prepare_worker() -> None:
 
 
 def worker_main() -> int:
-    import gc
-
-    _prepare_worker()
-    gc.collect()
-    gc.freeze()
-    out = sys.stdout
-    for line in sys.stdin:
-        line = line.strip()
-        if not line:
-            continue
-        job = json.loads(line)
-        r, w = os.pipe()
-        pid = os.fork()
-        if pid == 0:
-            os.close(r)
-            try:
-                res = run_job(job)
-            except BaseException as e:  # noqa: BLE001
-                import traceback
-
-                res = {'id': job.get('id'), 'rig_error': f'{type(e).__name__}: {e}', 'tb': traceback.format_exc()[-1500:]}
-            data = json.dumps(res).encode()
-            with os.fdopen(w, 'wb') as f:
-                f.write(data)
-            os._exit(0)
-        os.close(w)
-        chunks = []
-        with os.fdopen(r, 'rb') as f:
-            while True:
-                c = f.read(1 << 16)
-                if not c:
-                    break
-                chunks.append(c)
-        os.waitpid(pid, 0)
-        data = b''.join(chunks)
-        if not data:
-            data = json.dumps({'id': job.get('id'), 'rig_error': 'child died without output'}).encode()
-        out.write(data.decode() + '\n')
-        out.flush()
-    return 0
-
-
-def oneshot_main() -> int:
     _prepare_worker()
     job = json.loads(sys.stdin.read())
     try:
         res = run_job(job)
     except BaseException as e:  # noqa: BLE001
-        res = {'id': job.get('id'), 'rig_error': f'{type(e).__name__}: {e}'}
+        import traceback
+
+        res = {'id': job.get('id'), 'rig_error': f'{type(e).__name__}: {e}', 'tb': traceback.format_exc()[-1500:]}
     sys.stdout.write(json.dumps(res) + '\n')
     return 0
 
@@ -374,8 +330,23 @@ def oneshot_main() -> int:
 # the pool (library side)
 
 
+def oneshot(job: dict, timeout: float = 300.0) -> dict:
+    """Run one job in a brand-new interpreter."""
+    env = dict(os.environ)
+    env['exabgp_log_enable'] = 'false'
+    env['PYTHONPATH'] = str(REPO / 'src')
+    try:
+        p = subprocess.run([sys.executable, '-S', str(Path(__file__).resolve()), '--worker'], input=json.dumps(job), stdout=subprocess.PIPE, text=True, env=env, cwd=str(VERIF), timeout=timeout)
+    except subprocess.TimeoutExpired:
+        return {'id': job.get('id'), 'rig_error': 'timeout'}
+    try:
+        return json.loads(p.stdout)
+    except ValueError:
+        return {'id': job.get('id'), 'rig_error': f'no output (rc={p.returncode})'}
+
+
 class Pool:
-    """K worker processes; jobs are JSON dicts with an 'id'; results arrive in `results`."""
+    """K threads, each launching one fresh interpreter per job; results arrive in `results`."""
 
     def __init__(self, k: int) -> None:
         self.q: 'queue.Queue[dict | None]' = queue.Queue()
@@ -384,33 +355,21 @@ class Pool:
         self.pending = 0
         self.done_evt = threading.Condition(self.lock)
         self.threads = []
-        self.procs: list[subprocess.Popen] = []
-        self.stopping = False
-        env = dict(os.environ)
-        env['exabgp_log_enable'] = 'false'
-        env['PYTHONPATH'] = str(REPO / 'src')
+        self.k = k
         for _ in range(k):
-            p = subprocess.Popen([sys.executable, '-S', str(Path(__file__).resolve()), '--worker'], stdin=subprocess.PIPE, stdout=subprocess.PIPE, text=True, bufsize=1, env=env, cwd=str(VERIF))
-            self.procs.append(p)
-            t = threading.Thread(target=self._serve, args=(p,), daemon=True)
+            t = threading.Thread(target=self._serve, daemon=True)
             t.start()
             self.threads.append(t)
 
-    def _serve(self, p: subprocess.Popen) -> None:
+    def _serve(self) -> None:
         while True:
             job = self.q.get()
             if job is None:
                 return
-            if self.stopping:
-                res = {'id': job['id'], 'skipped': True}
-            else:
-                try:
-                    p.stdin.write(json.dumps(job) + '\n')
-                    p.stdin.flush()
-                    line = p.stdout.readline()
-                    res = json.loads(line) if line else {'id': job['id'], 'rig_error': 'worker died'}
-                except Exception as e:  # noqa: BLE001
-                    res = {'id': job['id'], 'rig_error': f'{type(e).__name__}: {e}'}
+            try:
+                res = oneshot(job)
+            except Exception as e:  # noqa: BLE001
+                res = {'id': job['id'], 'rig_error': f'{type(e).__name__}: {e}'}
             with self.done_evt:
                 self.results[job['id']] = res
                 self.pending -= 1
@@ -434,39 +393,26 @@ class Pool:
                 left = None if end is None else end - time.time()
                 if left is not None and left <= 0:
                     return False
-                self.done_evt.wait(left if left is not None else 1.0)
+                self.done_evt.wait(min(left, 1.0) if left is not None else 1.0)
 
-    def run(self, job: dict, timeout: float = 120.0) -> dict:
-        self.submit(job)
-        if not self.wait([job['id']], timeout):
-            return {'id': job['id'], 'rig_error': 'timeout'}
-        return self.results[job['id']]
-
-    def cancel_rest(self) -> None:
-        self.stopping = True
+    def drop_pending(self) -> None:
+        """Forget the jobs not yet handed to an interpreter (they are answered as skipped)."""
+        while True:
+            try:
+                job = self.q.get_nowait()
+            except queue.Empty:
+                return
+            if job is None:
+                continue
+            with self.done_evt:
+                self.results[job['id']] = {'id': job['id'], 'skipped': True}
+                self.pending -= 1
+                self.done_evt.notify_all()
 
     def close(self) -> None:
-        self.stopping = True
+        self.drop_pending()
         for _ in self.threads:
             self.q.put(None)
-        for p in self.procs:
-            try:
-                p.stdin.close()
-            except Exception:  # noqa: BLE001
-                pass
-        for p in self.procs:
-            try:
-                p.wait(timeout=3)
-            except Exception:  # noqa: BLE001
-                p.kill()
-
-
-def oneshot(job: dict) -> dict:
-    env = dict(os.environ)
-    env['exabgp_log_enable'] = 'false'
-    env['PYTHONPATH'] = str(REPO / 'src')
-    p = subprocess.run([sys.executable, '-S', str(Path(__file__).resolve()), '--oneshot'], input=json.dumps(job), stdout=subprocess.PIPE, text=True, env=env, cwd=str(VERIF), timeout=120)
-    return json.loads(p.stdout) if p.stdout.strip() else {'id': job.get('id'), 'rig_error': 'no output'}
 
 
 # ---------------------------------------------------------------------------------------------
@@ -530,6 +476,7 @@ ATTRS: dict[str, bytes] = {
     'mp-reach-v6': tlv(0x80, 14, h('0002 01 10 20010db8000000000000000000000001 00 20 20010db8')),
     'mp-reach-v6-pathid': tlv(0x80, 14, h('0002 01 10 20010db8000000000000000000000001 00 00000001 20 20010db8')),
     'mp-unreach-v6': tlv(0x80, 15, h('0002 01 20 20010db8')),
+    'mp-unreach-v6-empty': tlv(0x80, 15, h('0002 01')),
     'mp-reach-badflag': tlv(0x40, 14, h('0002 01 10 20010db8000000000000000000000001 00 20 20010db8')),
 }
 NLRIS: dict[str, bytes] = {
@@ -667,6 +614,4 @@ def qa_samples() -> list[tuple[int, bytes, str]]:
 if __name__ == '__main__':
     if '--worker' in sys.argv:
         sys.exit(worker_main())
-    if '--oneshot' in sys.argv:
-        sys.exit(oneshot_main())
     print(__doc__)
